@@ -17,8 +17,8 @@ PROP = dict(
          "literals, and in front of 0..2 more. Plus the end-of-input family: 34 truncations that end exactly where an identifier / expression / type / pattern is required (`fn`, `type`, `use`, `interface`, `implement`, `s.`, `use a/`, `fn f(x:`, `let a = 1 +`, `match x {` ...) x last character of the file in {ASCII, 2-byte, 3-byte, 4-byte} x 4 trailer styles (comment on the same line, glued comment, block+line comment, comment two lines below) x with/without trailing newline; every primary and secondary range within the file and on char boundaries, and a diagnostic lying behind the code must sit at the end of input or on the last character. Generic oracle on every label of every diagnostic (primary and secondary): its text has balanced (), [], {} (string literals skipped; single-token diagnostics excepted), i.e. it never starts or ends inside a bracket pair. Per program: every diagnostic of check_lsp(...).errors() — primary range and "
          "secondary labels — within the file and on char boundaries; the template's diagnostic covers exactly the offending "
          "text known to the generator; all token spans and lexer diagnostics vs the Lean lexer model (byte offsets). "
-         "distinct = distinct program texts; non-trivial = non-ASCII text precedes the error site",
-    nontrivial=lambda req, imp: any(b in req.split()[1] for b in ("c3", "e6", "f0", "d0", "e2")),
+         "distinct = distinct program texts; non-trivial = non-ASCII text precedes the error site (end-of-input family: the file's last character is not ASCII), as tagged by the harness",
+    nontrivial=lambda req, imp: req.endswith("+na"),
     trusted_base=COMMON_TB + [
         "hook verif_lex in /repo/abra_core/src/parse.rs (cfg abra_verif)",
         "public API check_lsp / LspAnalysisResult::errors (AnalysisError.range) is what an editor sees",
